@@ -53,6 +53,19 @@ func c18(c *Ctx) {
 			}
 		}
 		R.Check("C18.state-writers", R.Key("C18.state-writers", shortFn(s.Fn), "store:state="+v), c.sitePos(p, s), "node.state = "+v+" in "+shortFn(s.Fn)+" is one of the protocol's transitions", ok, "unlisted writer or value")
+		// an exit counts as a cancellation (no DEAD state, no cancellation of the group, no
+		// back-off) only when the node's context really was cancelled
+		if s.Fn == died && v == CANCELED {
+			fs := facts.Atoms(facts.At(st, nil))
+			okCtx := false
+			for _, a := range fs {
+				if strings.HasPrefix(a, "invoke:context.Context.Err(") && strings.HasSuffix(a, ".ctx) != nil") {
+					okCtx = true
+				}
+			}
+			R.Check("C18.cancel-group", R.Key("C18.cancel-group", shortFn(s.Fn), "canceled-needs-cancelled-context"), c.sitePos(p, s), "an exit is classified CANCELED only under the must-hold fact ctx.Err() != nil (a return on a live context is a death: group cancelled, back-off applied)", okCtx,
+				"no fact ctx.Err() != nil: a service that returns nil (or an error equal to a nil ctx.Err()) on a live context is treated as cancelled — its siblings and children keep running and it restarts without back-off; facts: "+strings.Join(fs, ";"))
+		}
 	}
 	R.Floor("C18.state-writers", n, 5)
 
